@@ -134,8 +134,8 @@ CHECKS = {
         design="7/C19", technique="Coq proof (algebraic round-trip, layout lemma) + byte-level correspondence run",
         note="Bytes modelled as N < 256; only the canonical 36-character UUID text form is modelled. " + NOTE_COMMON),
     "C11": dict(
-        text="This revision covers the error-class and isolation-level mapping of C11; the streaming and whole-history parts are "
-             "added later (not claimed yet). Theorems (Coq, every error tree: any depth of fmt.Errorf %w wrapping and errors.Join "
+        text="Covers the error-class / isolation-level mapping (theorems) and whole client histories through both clients "
+             "(differential run incl. aborted uploads; defects D4, D5, D6 found this way and repaired by fix: commits). Theorems (Coq, every error tree: any depth of fmt.Errorf %w wrapping and errors.Join "
              "over the ten sentinels and foreign errors), stated over switch tables regenerated from the Go AST on every run: "
              "ClientError(Error(e)) matches exactly one sentinel, the class announced by the server; that class is a specific "
              "exported class of e whenever e has one and ErrUnknown otherwise (foreign and config errors become ErrUnknown); the "
